@@ -37,6 +37,10 @@ pub fn units(tier: &str, seed: u64) -> Vec<String> {
     for s in &extra {
         v.push(unit(&[("shape", s), ("n", "1"), ("fs", "PEN"), ("k", "0")]));
     }
+    // a user file that spells out every factor, cogeneration and ambient / solar export factors included
+    for s in [shapes[2], shapes[13], shapes[12], "U:ACS:EAMBIENTE;P:EAMBIENTE;U:NEPB:EAMBIENTE;U:CAL:ELECTRICIDAD;P:EL_COGEN;U:COGEN:BIOMASA"] {
+        v.push(unit(&[("shape", s), ("n", "1"), ("fs", "FULL"), ("k", "sym")]));
+    }
     if tier == "thorough" {
         for s in shapes {
             v.push(unit(&[("shape", s), ("n", "2"), ("fs", "BAL"), ("k", "sym"), ("lm", "1")]));
